@@ -832,10 +832,15 @@ def construct(ex, n, st, ct):
     if k == 'vector' and len(args) == 2 and parse_type(args[0].get('type')).kind == 'int':
         # vector(n): n value-initialised elements
         nval = ex.ev(args[0], st)
+        ex.safe(st, 'vector-size', nval.t >= 0, 'vector(n) with a negative n converts to a huge size_t (length_error / bad_alloc)')
         region = f'local:{ex.pending_name or "vec"}'
         st.length[region] = nval.t
-        st.arr[(region, '')] = z3.K(z3.IntSort(), z3.RealVal(0))
-        st.leafct[(region, '')] = FLOAT
+        for key in list(st.arr):
+            if key[0] == region:
+                del st.arr[key]
+        for lf, lct in container_leaves(ct.name):
+            st.arr[(region, lf)] = z3.K(z3.IntSort(), z3.RealVal(0) if lct.kind == 'float' else z3.IntVal(0))
+            st.leafct[(region, lf)] = lct
         return ObjRef(region, ct.name)
     if k == 'marray' and args and 'extent_gen' in (args[0].get('type', {}).get('qualType', '') + args[0].get('type', {}).get('desugaredQualType', '')):
         # boost::multi_array(boost::extents[a][b][c]): value-initialised elements, extents as written
